@@ -41,6 +41,7 @@ func core3(name string, props map[string]bool, probe string) *PktModel {
 			{Label: "viaB", Src: A, Dst: C, Relay: B, Data: "relayed", Max: 1},
 			{Label: "direct", Src: A, Dst: C, Data: "direct", Max: 1},
 			{Label: "backViaB", Src: C, Dst: A, Relay: B, Data: "denied", Max: 1}, // not whitelisted on B: error ack path
+			{Label: "relayOwn", Src: B, Dst: C, Data: "own", Max: 1},              // the relay chain's own direct traffic to C (same sequence number as viaB)
 		}),
 		StepCheck: CoreStepCheck}
 }
